@@ -54,6 +54,47 @@ check("C17", "model_checking",
       "a switch before any sleeper ever ran trips the library's own assert and is excluded; early wake-ups are not excluded by the statement and not reported.",
       "exhaustive enumeration of sleeper/switch plans with all tie orders (unbounded deviations)", "DESIGN.md §2 C17", "E1+E3")
 
+check("C02", "exploration",
+      "Real accessors of every shipped table on real structure objects: per geometric shape ALL prior field contents x ALL domain values (bit-fields), ALL domain values x prior patterns (bytes, words, HH:MM, every raw temperature word in both units) at the shipped position, both block edges and the middle; every one of the ~20,500 items on three backgrounds; both write paths; reference bit-field codec built from the raw declarations.",
+      "background outside the field: seed-chosen pattern; shapes that exist only read-only are tested for refusal only.",
+      "exhaustive input enumeration per shape + per-item binding sweep against a reference codec", "DESIGN.md §2 C02", "E6")
+check("C03", "model_checking",
+      "Real replace_status_block_segment/status_block_changed on both structure classes: per shape every patch geometry around the item x ALL 256^2 old/new contents of the patched byte (boundary sets for the rest), every shipped table through a full refresh and a changing + non-changing patch of every byte, and a BFS to closure over watch/unwatch/update histories; oracle = reference decode of old/new blocks, callback count/arguments, block already swapped in every callback.",
+      "quick tier does the full 256^2 sweep on the blocking structure at the shipped position and boundary pairs on the edge twins / awaitable structure; thorough does all.",
+      "exhaustive update enumeration against a reference decoder + explicit-state BFS of observer lists", "DESIGN.md §2 C03", "E4+E6")
+check("C04", "exploration",
+      "Every constructor of driver/protocol/*.py with every scalar field over its whole range, payload token strings (framing tags, newlines, NUL, <, >, |) up to length 4/5, all reminder types x signed day boundaries, every shipped platform x version in the config-file reply, latin-1 hello names; compared byte-for-byte with an independent reference codec, offered to every standard handler family (exactly one must claim it), decoded by a fresh peer handler, passed through the framing extractor, reply addressing swapped.",
+      "reference codec written from the protocol layout; SETWC/WCREQ unclaimed is a recorded known finding.",
+      "exhaustive field-domain enumeration against a reference codec", "DESIGN.md §2 C04", "E6")
+check("C11", "exploration",
+      "All 895 platform x config x log combinations: real async and blocking facades constructed on zeros/ones/every shipped snapshot + complement/random blocks, every public read-only member evaluated; every byte the API reads swept through all 256 contents (wiring bytes: every label index + out-of-range boundaries), coupled-item sweeps, all watercare bytes and reminder lists; no exception, out-of-range enums read 'Unknown'.",
+      "facades built on a stand-in spa exposing the real structure/accessors; quick tier sweeps bytes on one cfg per log version and one log per cfg version of each platform; 18 unconstructible combinations are recorded known findings.",
+      "exhaustive configuration enumeration + one-field-exhaustive input sweeps", "DESIGN.md §2 C11", "E6")
+check("C12", "exploration",
+      "Output wirings written through the reference codec on platform x config x log combinations (every single assignment, label pairs on the two richest outputs, same-device H/L variants on every output pair, all-same-label, empty, snapshot wirings); real async and blocking facades compared with an independent recomputation of the inventory (devices in table order, classes, demand items, modes, sensors, unique keys, lookup); blocking facade under PYTHONHASHSEED 0..15.",
+      "quick: every cfg with the latest log and every log with the latest cfg; thorough: all 895.",
+      "exhaustive wiring enumeration against an independent inventory model", "DESIGN.md §2 C12", "E6")
+check("C13", "model_checking",
+      "Whole async stack really connected to a spa model (real simulator + applies writes/key presses, follows demands, stores watercare mode, echoes STATP): every device x every current state x every argument (+ command pairs); blocking facade on the stepped engine; exactly one well-formed command (none when already there), pack type/versions/position/value/sequence range decoded by the reference codec, spa-side effect and client read-back after the echo.",
+      "the spa's reaction to commands is modelled (documented in props/c13.py); the ping-gate drop after a mode switch is a recorded known finding.",
+      "exhaustive command enumeration on the real stack against a spa model", "DESIGN.md §2 C13", "E1+E2")
+check("C14", "exploration",
+      "Real temperature accessor: all 65,536 raw words x both units x both unit orders read, every representable value written back exactly (float and string, both paths), every decimal k/100 around the limits within one device step and monotone; real GeckoWaterHeater on all 895 combinations (+ synthetic packs lacking the flag items): unit symbol, limits, readings, full operation ladder.",
+      "heater built on a stand-in facade over the real tables.",
+      "exhaustive value-domain enumeration", "DESIGN.md §2 C14", "E6")
+check("C18", "exploration",
+      "Complete enumeration of the shipped table set (164 modules, ~20,500 items): geometry from the raw declarations (inside block, bit field inside bytes, labels representable), advertised keys resolve, module name/version/config-file naming round trip, item-by-item comparison with the layout pinned under /verif/pins.",
+      "finite configuration space enumerated completely, not behaviours; two table-data defects are recorded known findings.",
+      "exhaustive enumeration of a finite table set + golden layout comparison", "DESIGN.md §2 C18", "E6")
+check("C19", "exploration",
+      "Real GeckoShell.do_snapshot through the shell's log format parsed back (every byte value at every position class, version tuples, pack names, snapshot names over a token alphabet); DEBUG traffic log of the real blocking handshake for every simulator segment size 4..255 and STATV contents over all strings <=3/4 from the quote/escape alphabet reassembled by the parser; every shipped snapshot loaded into the simulator and served to a real async client.",
+      "scratch log files under /tmp, removed after each case.",
+      "exhaustive input enumeration of the capture/parse round trip", "DESIGN.md §2 C19", "E6 + stepped engine")
+check("C20", "model_checking",
+      "Real GeckoUdpSocket._thread_func stepped in virtual time: all registration orders x all datagram sequences <=3 with raising handlers; all (T, N, reply point) retry cases; all enqueue patterns of <=4 sends under fast incoming traffic; handshake of the blocking client vs the real simulator under every loss vector from a grid (+ budget exhaustion); queue_send from two real threads vs the send step under the controlled scheduler, pre-emption bounded.",
+      "engine iterations stepped deterministically; real threads only for the queue check (GIL, line-level switches).",
+      "exhaustive scenario enumeration on the stepped engine + pre-emption-bounded thread schedules", "DESIGN.md §2 C20", "stepped engine + E5")
+
 NOT_YET = "harness not built yet in this session (planned, see DESIGN.md §2)"
 
 def main():
@@ -71,7 +112,10 @@ def main():
             {"name": "E1 VLoop", "path": "geckomc/vloop.py", "kind_free_text": "deterministic virtual-time asyncio loop; timer-order choice points; replayable choice traces"},
             {"name": "E2 VNet", "path": "geckomc/vnet.py", "kind_free_text": "in-memory UDP with per-datagram fate choice points; real GeckoSimulator as peer (geckomc/peers.py)"},
             {"name": "E3 explore", "path": "geckomc/explore.py", "kind_free_text": "stateless deviation-bounded DFS over choice sequences, parallel, iterative bounding"},
+            {"name": "E4 BFS", "path": "geckomc/props/c08.py", "kind_free_text": "explicit-state BFS over real objects (state = event history, rebuild-and-replay, canonical hashing), closure"},
             {"name": "E5 threads", "path": "geckomc/threads.py", "kind_free_text": "sys.settrace baton scheduler for real threads, pre-emption bounded"},
+            {"name": "E6 enumerators", "path": "geckomc/refmodels/", "kind_free_text": "exhaustive input/configuration enumerators with reference codecs (bit-field, wire)"},
+            {"name": "stepped engine", "path": "geckomc/stepped.py", "kind_free_text": "the legacy threaded socket loop run iteration by iteration on mock sockets in virtual time"},
         ],
         "checks": [],
         "not_applicable": [],
